@@ -1164,6 +1164,58 @@ def suite_decode(chk):
         f"return in the decoded text, one U+FFFD per injected 0xFF byte: checked on {n} byte strings")
 
 
+# =================================================================== RX suite ===
+def rx_alignment():
+    """rxsuite addresses a generated regex by its index in tr's registry; the runner was built
+    from Generated/Regexes.v.  The two orders differ while some OTHER property's facts plugin
+    fails in generate() (its regexes are then missing from Regexes.v but not from the registry).
+    -> (aligned up to group c05, names of the groups missing from the build)"""
+    from harness import rxsuite  # noqa: puts tr/ on sys.path
+    import gen_modules
+    txt = open(os.path.join(common.COQ, "Generated", "Regexes.v")).read()
+    m = re.search(r"all_regexes : list rx := (.*?)\.\s*$", txt, re.S | re.M)
+    built = [g.strip()[:-len("_regexes")] for g in m.group(1).split("++")] if m else []
+    want = []
+    for pl in gen_modules.plugins():
+        try:
+            if gen_modules.registry_of(pl):
+                want.append(gen_modules.load(pl).NAME)
+        except Exception:  # noqa
+            continue
+
+    def cut(l):
+        return l[:l.index("c05") + 1] if "c05" in l else None
+    return cut(built) is not None and cut(built) == cut(want), [g for g in want if g not in built]
+
+
+def rx_wire_only(chk):
+    """engine + translator on the mochibake regex through the wire AST (no index into the
+    generated list); the generated Coq term itself is exercised by suite ENCODING"""
+    from harness import rxsuite
+    import gen_modules
+    import rx2coq
+    pat, flags = gen_modules.registry(["c05"])["c05_mochibake"]
+    cre = re.compile(pat, flags)
+    ast, _ = rx2coq.parse(pat, flags)
+    sxr = rx2coq.to_sx(ast)
+    rng = chk.rng
+    cases, impl, reqs = [], [], []
+    for s in ["", FFFD, "a" + FFFD + FFFD] + [rand_text(rng, 10) for _ in range(chk.n(300, 1500))]:
+        sl = common.s2l(s)
+        for off in range(len(s) + 1):
+            mm = cre.match(s, off)
+            cases.append(("match-wire", s, off)); impl.append([rxsuite.span_list(mm, 0)] if mm else [])
+            reqs.append((0, [sxr, 0, sl, off]))
+            ms = cre.search(s, off)
+            cases.append(("search-wire", s, off)); impl.append([rxsuite.span_list(ms, 0)] if ms else [])
+            reqs.append((1, [sxr, 0, sl, off]))
+        cases.append(("finditer-wire", s, 0)); impl.append([rxsuite.span_list(x, 0) for x in cre.finditer(s)])
+        reqs.append((2, [sxr, 0, sl, 0]))
+        chk.count(("rx", s))
+    outs = Model("RX").call(reqs)
+    chk.correspond("RX[c05, wire AST]", cases, impl, outs)
+
+
 # ======================================================================= run ===
 def describe(case):
     return {"type": case["ft"], "file": FILE[case["ft"]], "stream": case["stream"],
@@ -1202,7 +1254,14 @@ def run(chk, runner_ok):
     from harness import rxsuite
     model = Model("C05") if runner_ok else None
     if runner_ok:
-        rxsuite.run_rx(chk, groups=["c05"], per_regex=chk.n(200, 1000))
+        aligned, missing = rx_alignment()
+        if aligned:
+            rxsuite.run_rx(chk, groups=["c05"], per_regex=chk.n(200, 1000))
+        else:
+            chk.notes.append("RX by index skipped: the facts plugin(s) of " + ", ".join(missing) + " failed, so "
+                             "the registry's indices do not address Generated.all_regexes; ran the wire-AST "
+                             "form of the suite instead (the generated term is exercised by ENCODING)")
+            rx_wire_only(chk)
     # corpus first
     cases = []
     cdir = os.path.join(common.VERIF, "corpus", "C05")
